@@ -524,3 +524,25 @@ package scanner
 //@   ensures normal && isNewLine(c) ==> len(s.finds) == old(len(s.finds)) + 2 && s.finds[old(len(s.finds))] == lexeme.InlineAnnotationEnd && s.finds[old(len(s.finds)) + 1] == lexeme.NewLine
 //@           && len(s.returnToStep.vals) == old(len(s.returnToStep.vals)) - 1 && s.step == old(s.returnToStep.vals[len(s.returnToStep.vals) - 1]) && (s.annotation == annotationNone || s.annotation == annotationMultiLine)
 //@   ensures normal && c == '-' ==> s.step == stateInlineAnnotationTextPrefix2 && len(s.finds) == old(len(s.finds))
+
+// the multi-line counterpart: after the rule object line ends (LF or CR, reported) and
+// blanks are transparent, `- note`, a user comment, or `*/` may follow
+//@ func stateMultiLineAnnotationTextPrefix(s, c)
+//@   props C13
+//@   requires s != nil && s.returnToStep != nil && 1 <= s.index && s.index <= len(s.data)
+//@   maypanic
+//@   modifies s.step, s.finds, s.finds[*], s.returnToStep.vals, s.returnToStep.vals[*]
+//@   ensures !(isBlank(c) || c == '-' || c == '*' || ((s.annotation == annotationNone || s.annotation == annotationInline) && c == '#')) ==> panics && typeis(pv, errors.DocumentError)
+//@   ensures normal ==> result == scanContinue
+//@   ensures normal && isNewLine(c) ==> len(s.finds) == old(len(s.finds)) + 1 && s.finds[old(len(s.finds))] == lexeme.NewLine && s.step == old(s.step)
+//@   ensures normal && isSpace(c) ==> len(s.finds) == old(len(s.finds)) && s.step == old(s.step)
+//@   ensures normal && c == '*' ==> s.step == stateMultiLineAnnotationEnd && len(s.finds) == old(len(s.finds))
+//@   ensures normal && c == '-' ==> s.step == stateMultiLineAnnotationTextPrefix2 && len(s.finds) == old(len(s.finds))
+//@ func stateMultiLineAnnotationEnd(s, c)
+//@   props C13
+//@   requires s != nil && s.returnToStep != nil && 1 <= s.index && s.index <= len(s.data)
+//@   maypanic
+//@   modifies s.step, s.annotation, s.finds, s.finds[*], s.returnToStep.vals
+//@   ensures panics <==> (c != '/' || old(len(s.returnToStep.vals)) == 0)
+//@   ensures normal ==> result == scanContinue && s.annotation == annotationNone && len(s.finds) == old(len(s.finds)) + 1 && s.finds[old(len(s.finds))] == lexeme.MultiLineAnnotationEnd
+//@           && s.step == old(s.returnToStep.vals[len(s.returnToStep.vals) - 1]) && len(s.returnToStep.vals) == old(len(s.returnToStep.vals)) - 1
